@@ -38,6 +38,14 @@ class Cond:
             self.kind = "discr"
             return
         if t["ty"] != "bool":
+            # `match n { 0 => .., _ => .. }`: a switch on an integer with one listed value is the comparison `n == v`
+            if self.si["kind"] == "int" and len(t["targets"]) == 1 and t["otherwise"] is not None and isinstance(t["targets"][0][0], int):
+                self.kind = "cmp"
+                self.op = "Eq"
+                self.a = t["op"]
+                self.b = {"k": "const", "ty": t["ty"], "val": t["targets"][0][0], "uneval": None, "fn": None}
+                self.true_succ = t["targets"][0][1]
+                self.false_succ = t["otherwise"]
             return
         for v, s in t["targets"]:
             if v == 0:
